@@ -211,6 +211,9 @@ pub struct CallbackFaults {
     /// Panic in the n-th K::eq call made while a simulated operation executes.
     #[serde(default, skip_serializing_if = "Option::is_none")]
     pub eq_panic_at: Option<u32>,
+    /// unsync: panic in the n-th evaluation of an `invalidate_entries_if` predicate.
+    #[serde(default, skip_serializing_if = "Option::is_none")]
+    pub pred_panic_at: Option<u32>,
 }
 
 /// A fully explicit description of one simulated run. Replaying it consults no PRNG.
